@@ -702,14 +702,21 @@ func main() {
 		pprof.StartCPUProfile(f)
 		defer pprof.StopCPUProfile()
 	}
+	if os.Getenv("C19_MEMPROF") != "" {
+		defer func() {
+			f, _ := os.Create(os.Getenv("C19_MEMPROF"))
+			pprof.Lookup("allocs").WriteTo(f, 0)
+			f.Close()
+		}()
+	}
 	a := hx.ParseArgs()
 	rng := hx.NewRng(a.Seed)
 	res := hx.NewResult("one case = one history of AddGroup / remove(last) / removeFromCommonAncestor / fork switch (triggerOnChain) / restart / loss of sqlite rows " +
 		"on a fresh store (genesis id 1); the property is evaluated after every operation. Generated: all histories up to length 3 (quick) / 4 (thorough) over an " +
-		"8-letter alphabet (thorough: also all of length 5 over the 6 letters without fork switch and row loss), then seeded random histories of 6..15 operations " +
+		"8-letter alphabet (thorough: also all of length 5 over 5 of the letters: add 2, add 3, remove-last, remove-from-ancestor(0), restart), then seeded random histories of 6..15 operations " +
 		"over 7 ids with ~10% refused additions. non-trivial = a history in which a group was actually removed and afterwards a group was added or the node " +
 		"restarted, or in which a restart had to re-create lost sqlite rows")
-	cs := hx.NewCases(a.Out, "From V.C19 Require Import Model Harness.\nOpen Scope N_scope.", "N * list (hop * obs)", "check", 150)
+	cs := hx.NewCases(a.Out, "From V.C19 Require Import Model Harness.\nOpen Scope N_scope.", "N * list (hop * obs)", "check", 100)
 
 	if os.Getenv("C19_GC") != "on" {
 		debug.SetGCPercent(-1)
@@ -762,16 +769,16 @@ func main() {
 	if a.Tier == "thorough" {
 		depth = 4
 	}
-	// every history over alpha[:letters] of length <= depth; only those of length >= minLen are run
-	var rec func(pre []Op, letters, depth, minLen int)
-	rec = func(pre []Op, letters, depth, minLen int) {
+	// every history over the given letters of length <= depth; only those of length >= minLen are run
+	var rec func(pre []Op, letters []Op, depth, minLen int)
+	rec = func(pre []Op, letters []Op, depth, minLen int) {
 		if len(pre) >= minLen && len(pre) > 0 {
 			runCase(3, pre)
 		}
 		if len(pre) == depth {
 			return
 		}
-		for _, o := range alpha[:letters] {
+		for _, o := range letters {
 			// Pre 0xff = "the current last group" (tracked with a reference list)
 			sh := &shadow{l: []G{{1, 0, 0, 0}}}
 			seq := make([]Op, 0, len(pre)+1)
@@ -785,12 +792,12 @@ func main() {
 			rec(append(seq, o), letters, depth, minLen)
 		}
 	}
-	rec(nil, len(alpha), depth, 1)
+	rec(nil, alpha, depth, 1)
 	res.Exhaustive = true
 	res.Note(fmt.Sprintf("exhaustive: every history of length <= %d over {add 2 after last, add 3 after last, add 2 with PreGroup=genesis and parent 3, remove-last, remove-from-ancestor(0), restart, fork-switch(ancestor genesis, [3 after genesis, 2 after 3 with parent 3]), lose the sqlite rows of 1 and 2}", depth))
 	if a.Tier == "thorough" {
-		rec(nil, 6, 5, 5)
-		res.Note("exhaustive: every history of length 5 over the first six of those letters")
+		rec(nil, []Op{alpha[0], alpha[1], alpha[3], alpha[4], alpha[5]}, 5, 5)
+		res.Note("exhaustive: every history of length 5 over {add 2 after last, add 3 after last, remove-last, remove-from-ancestor(0), restart}")
 	}
 	res.Note("restart(cold) = close the shared LevelDB and the joined-groups DB, then initGroupChain() on the same files; restart(warm) = initGroupChain() on the still-open store (exhaustive histories use warm, random ones cold with probability 1/2); crashes between the individual Puts inside save/remove are outside the property as stated and are not generated")
 	res.Note("fork-switch = newGroupChainFork(chain group at the height), the fork groups stored with insertGroup (verifyGroup, which needs the block chain, is not called), the real triggerOnChain, destroy; lose-sqlite-rows = mysql.DeleteGroup of the ids behind the chain's back (the situation refreshCache repairs at the next start)")
